@@ -5,6 +5,7 @@ package checks
 // every version, flattened copy at every version); plus scripted branched histories for roi, annotation and uint8blk.
 
 import (
+	"encoding/json"
 	"fmt"
 	"strings"
 	"sync/atomic"
@@ -160,11 +161,125 @@ func runC19(c *vlib.Ctx) {
 		}
 	})
 	c.Set("kv_copies", copies)
+	c19Large(c)
 	c19Other(c)
 	c.Sample(map[string]interface{}{"shape": "diamond", "keys": []string{"a", "a0", "aa"}, "per_key_ops_per_node": [][]int{{1, 2, 0, 0}, {0, 1, 1, 0}, {1, 0, 0, 0}}, "copies": "full at node 0 and 3, flatten at every node", "compared": "keys, key/<k>, keyrangevalues at every version"})
 	c.Set("rule", "key-value world = (DAG shape, 3 keys, per-key op vector); every world is copied in full (issued at the root and the last node; thorough: every node) and flattened at every node; all read endpoints of the copy are compared with the source at every version (flatten: at its version). Other types: scripted branched histories. Non-trivial = world with >= 2 stored entries")
 	c.Assume("copy onto a second store is not exercised (store assignment is fixed by the server TOML before instance names exist); same-store copies only")
 	c.Assume("a flattened copy at a version where some key is in merge conflict may fail")
+}
+
+// c19Large: instances whose number of key-value pairs crosses the copy pipeline's internal sizes (its channels hold 1000
+// pairs): K keys written at the root of a diamond, child A overwrites every 3rd and deletes every 5th key, sibling B
+// overwrites every 7th (disjoint from A's), merge. Full copy and a flattened copy at every node, compared through the key
+// listing and the full range read at every version.
+func c19Large(c *vlib.Ctx) {
+	sizes := []int{1000, 1001, 2600}
+	if c.Thorough() {
+		sizes = []int{999, 1000, 1001, 1999, 2000, 2001, 2600, 5003}
+	}
+	snap := func(uuid, inst string) string {
+		var sb strings.Builder
+		x := vsrv.Get("node/" + uuid + "/" + inst + "/keys")
+		fmt.Fprintf(&sb, "keys:%d:%x;", x.Code, fnvSum(x.Body))
+		var ks []string
+		json.Unmarshal(x.Body, &ks)
+		fmt.Fprintf(&sb, "n=%d;", len(ks))
+		y := vsrv.Get("node/" + uuid + "/" + inst + "/keyrangevalues/" + kvURLKey("!") + "/" + kvURLKey("~~") + "?json=true")
+		if rk, rv, err := c05ParseJSONObj(y.Body); y.Code == 200 && err == nil {
+			h := fnv64()
+			for i := range rk {
+				fmt.Fprintf(h, "%q=%q;", rk[i], rv[i])
+			}
+			fmt.Fprintf(&sb, "range:%d pairs:%x;", len(rk), h.Sum64())
+		} else {
+			sb.WriteString("range:failed;")
+		}
+		return sb.String()
+	}
+	vlib.Par(len(sizes), 8, func(si int) {
+		K := sizes[si]
+		root, err := vsrv.NewRepo()
+		if err != nil {
+			c.Violate("harness:large:repo", err.Error(), nil)
+			return
+		}
+		defer datastore.DeleteRepo(dvid.UUID(root), "")
+		vsrv.NewInstance(root, "keyvalue", "big", nil)
+		key := func(i int) string { return fmt.Sprintf("k%05d", i) }
+		for i := 0; i < K; i++ {
+			vsrv.PostS("node/"+root+"/big/key/"+key(i), fmt.Sprintf("\"r%d\"", i))
+		}
+		vsrv.Commit(root)
+		a, _ := vsrv.Branch(root, "a")
+		b, _ := vsrv.Branch(root, "b")
+		for i := 0; i < K; i++ {
+			switch {
+			case i%7 == 0 && i%3 != 0 && i%5 != 0:
+				vsrv.PostS("node/"+b+"/big/key/"+key(i), fmt.Sprintf("\"b%d\"", i))
+			case i%5 == 0:
+				vsrv.Delete("node/" + a + "/big/key/" + key(i))
+			case i%3 == 0:
+				vsrv.PostS("node/"+a+"/big/key/"+key(i), fmt.Sprintf("\"a%d\"", i))
+			}
+		}
+		vsrv.Commit(a)
+		vsrv.Commit(b)
+		m, err := vsrv.Merge(a, b)
+		if err != nil {
+			c.Violate("harness:large:merge", err.Error(), nil)
+			return
+		}
+		uuids := []string{root, a, b, m}
+		src := make([]string, len(uuids))
+		for v, u := range uuids {
+			src[v] = snap(u, "big")
+		}
+		c.Nontrivial(fmt.Sprintf("large|%d", K))
+		for at := range uuids {
+			for _, flatten := range []bool{false, true} {
+				if !flatten && at != 0 {
+					continue
+				}
+				kind := "full"
+				if flatten {
+					kind = "flatten"
+				}
+				dst := fmt.Sprintf("big_c%d_%v", at, flatten)
+				rep := map[string]interface{}{"keys": K, "copy": kind, "issued_at_node": at, "history": "root writes all; A overwrites i%3==0, deletes i%5==0; B overwrites i%7==0 (others); merge(A,B)"}
+				c.Eval(1)
+				var err error
+				if pn := vlib.Safely(func() {
+					err = datastore.CopyInstance(dvid.UUID(uuids[at]), "big", dvid.InstanceName(dst), c19Config(flatten))
+				}); pn != nil || err != nil {
+					c.Violate("kv-large:copy-error:"+kind, fmt.Sprintf("CopyInstance(%s at node %d) of a %d-key instance failed: %v %v", kind, at, K, pn, err), rep)
+					continue
+				}
+				for v, u := range uuids {
+					if flatten && v != at {
+						continue
+					}
+					c.Eval(1)
+					if got := snap(u, dst); got != src[v] {
+						c.Violate("kv-large:"+kind+":differs", fmt.Sprintf("%s copy issued at node %d of a %d-key instance: at node %d the copy reads %s, the source reads %s", kind, at, K, v, got, src[v]), rep)
+						break
+					}
+				}
+				c.Outcome("large-" + kind + "-ok")
+			}
+		}
+		for v, u := range uuids {
+			if got := snap(u, "big"); got != src[v] {
+				c.Violate("kv-large:source-changed", fmt.Sprintf("%d-key source reads differently at node %d after the copies", K, v), nil)
+			}
+		}
+	})
+}
+
+func fnvSum(b []byte) uint64 {
+	h := fnv64()
+	h.Write(b)
+	return h.Sum64()
 }
 
 // c19Other: roi, annotation and uint8blk instances with one scripted branched history each (write at root; overwrite /
